@@ -144,7 +144,7 @@ chk("C06",
     "Props/C06.lean: every label-addressed table of PiBas, PiPack, PiPtr, Pi2Lev, CT14 and ANSS16 is `buildTable` of a pair list (proved by "
     "unfolding each setup); for every pair list with distinct labels the stored label sequence is sorted in Python's bytes order and depends "
     "only on the SET of labels (bytes order proved total, transitive, antisymmetric; sorted permutations are equal); for PiBas/PiPack whole runs: "
-    "the same key on any permutation of the database, with any randomness, stores the same label sequence. PiPtr placement is PROVED to be the image of the recorded random sample: the occupied slots are the tail of the sample, and the blocks of a keyword sit at sample.reverse[m..m+k) with m, k block counts only (placement_is_sample, placement_order_free, placement_is_random_image). Array placement of the other schemes (Pi2Lev sample, "
+    "the same key on any permutation of the database, with any randomness, stores the same label sequence. PiPtr placement is PROVED to be the image of the recorded random sample: the occupied slots are the tail of the sample, and the blocks of a keyword sit at sample.reverse[m..m+k) with m, k block counts only (placement_is_sample, placement_order_free, placement_is_random_image). Pi2Lev: the occupied array slots (identifier blocks and second-level pointer blocks of every storage class) are exactly a tail of the recorded sample (Pi2Lev.placement_is_sample). Array placement of the other schemes ("
     "SSE1 PRP, DP17 bucket choice and shuffle) is modelled and replayed cell by cell; that two setups differ is a statement about `random` and is "
     "sampled by the direct oracle on databases with >= 12 array-resident blocks (one long list, three lists, many lists). Direct oracle (a): permute "
     "the keyword order, all tables sorted, real labels in the same order.",
@@ -219,13 +219,12 @@ chk("C13",
     "disk a kill leaves denotes the state before or after the request; on every such disk a new connection is accepted and echoes the denoted state; "
     "and every continuation behaves as the 3-state reference machine from that state (so the interrupted step is retried exactly when the echo asks "
     "for it and searches are answered from the acknowledged index). Client: the extracted persisting handlers are proved to use only atomic "
-    "replace steps in the order data-before-flag; the semantic client statement is decided by exhaustive enumeration of all client crash points on "
-    "the real code (kill before every mutation of create/key/encrypt/both acknowledgement handlers, restart, finish the workflow, compare the search "
-    "result). Tie: translator + the interposer's logged mutation sequence of every handler must equal the extracted primitive list + disk and echo "
+    "replace steps in the order data-before-flag, and the semantic statement is proved for the extracted program by kernel evaluation of the client interpreter with a crash budget (Model/ClientCrash.lean) run against the reference server: for every persisting step of the documented workflow and every budget of completed mutations, the re-created client redoes the interrupted step or finds it completed and the workflow ends in a search whose index and token come from the same key (client_crash_recovers, crash_points_are_covered); other client histories, and the command layer (commands.create_service by name incl. the shared name table service_mapping.json - where this check found and dd532e0 repaired a genuine defect), are decided by exhaustive enumeration of all client crash points on "
+    "the real code (kill before every mutation of create/key/encrypt/both acknowledgement handlers and of create-by-name, restart, finish the workflow, compare the search "
+    "result / the name resolution). Tie: translator + the interposer's logged mutation sequence of every handler must equal the extracted primitive list + disk and echo "
     "after a kill at every k must equal the interpreter's.",
     "Trusted: Lean kernel + 3 standard axioms; the crash model (a process stops between two file-system calls; completed calls are durable; os.replace is "
-    "atomic; no torn write inside one call); the interposer sees every mutation; the client-side recoverability is fault enumeration, not a theorem "
-    "(client_semantic_partial).",
+    "atomic; no torn write inside one call); the interposer sees every mutation; the client theorem covers ONE run of the documented workflow with an opaque configuration token (stated in client_semantic_partial), other client histories are fault enumeration.",
     "Lean 4 proof over the extracted program (all crash prefixes x all consistent states) + exhaustive crash-point enumeration on the real code",
     "6/C13")
 chk("C11",
